@@ -170,6 +170,8 @@ func run(c *core.Ctx) error {
 		}
 		if c.Quick() {
 			hs = lakeh.Sub(hs, 700, c.Seed)
+		} else {
+			hs = lakeh.Sub(hs, 2500, c.Seed)
 		}
 		rp := &lakeh.Replayer{C: c, M: m, Ctx: ctx, Warm: true, OnIssue: reportW(c, m, true)}
 		if err := rp.ReplayAll(hs); err != nil {
